@@ -147,4 +147,13 @@ chk("C13", "gbv/cellcodec",
     "a sub-slice of a non-nil image is non-nil even when empty.",
     "DESIGN.md 5/C13")
 
+chk("C15", "gbv/streamfsm+cellcodec+wirefmt",
+    "must-pass-through and dominance on the table-cache arm; SCCP over 256 type codes for the three metadata siblings; SCCP over header-size classes and lenenc prefix classes with canonical terms; read-fact extraction of the table-map body",
+    "Decides: the decoded map always reaches the cache entry of its own table id; insertion only on the equal edge of the column-count comparison, mismatch is an error; mapper asked for (Database, Name) "
+    "and the name constructor keeps that order; rows arms use the entry of their own id and fail on a missing id; per-image count guards; metadataLength/Read/Write agree with each other and with MySQL's "
+    "per-type layout for all 256 codes; TableID/TableMap/Rows choose the table-id width identically; the table-map body is read at the documented offsets and nothing after the NULL bitmap is read; "
+    "readLenEncInt composes exactly n little-endian bytes, advances by 1+n and bounds-checks. End-to-end decoding of arbitrary schemas is not decided.",
+    "MySQL internals documentation of TABLE_MAP_EVENT and per-type metadata (spec tables in rules_c15.go).",
+    "DESIGN.md 5/C15")
+
 ENGINES[0]["serves_properties"] = sorted(CHECKS.keys())
